@@ -586,17 +586,34 @@ func judgeDoc(s *typeSpec, raw []byte, ptr any, err error) docResult {
 	}
 	if err != nil {
 		if allMust && len(obj) > 0 {
-			// every member is a documented form (or a custom claim): rejecting the document is a refusal of a tolerant form
-			which := "custom claims only"
-			kindName := s.name
-			for k := range obj {
-				if fd, ok := s.byName[k]; ok {
-					which = fd.name
-					kindName = fd.kind.String()
+			// every member is a documented form (or a custom claim): rejecting the document is a refusal of a
+			// tolerant form. Attribute it: decode each registered member alone into a fresh value.
+			var members map[string]json.RawMessage
+			_ = json.Unmarshal(raw, &members)
+			attributed := false
+			for i := range s.fields {
+				fd := &s.fields[i]
+				mv, present := members[fd.name]
+				if !present {
+					continue
+				}
+				key, _ := json.Marshal(fd.name)
+				single := append(append(append([]byte("{"), key...), ':'), append(mv, '}')...)
+				var serr error
+				func() {
+					defer func() { _ = recover() }() // a panic here was already reported by the caller's own decode
+					serr = json.Unmarshal(single, s.newPtr())
+				}()
+				if serr != nil {
+					attributed = true
+					res.findings = append(res.findings, finding{Kind: fd.kind.String(), Class: "tolerant-form-rejected", Field: fd.name,
+						Detail: fmt.Sprintf("%s.%s: the documented form %s was rejected: %v", s.name, fd.name, trunc(string(mv), 200), serr)})
 				}
 			}
-			res.findings = append(res.findings, finding{Kind: kindName, Class: "tolerant-form-rejected", Field: which,
-				Detail: fmt.Sprintf("%s: every member of the document is a documented form, yet decoding failed: %v", s.name, err)})
+			if !attributed {
+				res.findings = append(res.findings, finding{Kind: s.name, Class: "tolerant-form-rejected", Field: "document",
+					Detail: fmt.Sprintf("%s: every member of the document is a documented form and decodes alone, yet the document was rejected: %v", s.name, err)})
+			}
 		}
 		return res
 	}
